@@ -153,7 +153,48 @@ pub fn eval_timeline(c: &ValidCase) -> Outcome {
     o
 }
 
-pub fn timeline_strategy(_t: Tier) -> BoxedStrategy<ValidCase> {
+/// Reordered streams whose total decode duration / one decode gap lands within a composition offset of the 32-bit limits
+/// (a guard that mixes up presentation and decode times is off by exactly such an offset).
+fn boundary_reorder_strategy() -> BoxedStrategy<ValidCase> {
+    (valid_case_strategy(0, 0), 0u8..2, -3i64..6003, proptest::sample::select(vec![0i64, 3000, 6000, -3000, 1, -1]), proptest::sample::select(vec![0i64, -3000, 3000, -1]), 3usize..6)
+        .prop_map(|(mut c, which, over, first_cts, late_cts, n)| {
+            c.fps_mode = None;
+            c.const_rate = None;
+            c.rejects.clear();
+            c.reorder = true;
+            c.cfg.audio = 0;
+            c.v_start = 1 << 33;
+            let g = |ddts: u32, cts: i64| VGene { ddts, cts, key: false, size: 9, shape: 0, jit: 0, big: 0 };
+            let limit = u32::MAX as i64;
+            c.video = if which == 0 {
+                // total = sum of the n-1 deltas + the last delta again = 2^32 - 1 + over
+                let last = 3000i64;
+                let rest = limit + over - 2 * last;
+                let mut v = vec![g(0, first_cts)];
+                let per = rest / (n as i64 - 2).max(1);
+                for i in 0..(n - 2) {
+                    let d = if i == 0 { rest - per * (n as i64 - 3).max(0) } else { per };
+                    v.push(g(d.clamp(1, limit) as u32, if i % 2 == 0 { late_cts } else { 0 }));
+                }
+                v.push(g(last as u32, 0));
+                v
+            } else {
+                // one decode gap of 2^32 - 1 + over in front of a frame with a (negative) composition offset
+                let mut v = vec![g(0, 0), g(3000, 3000), g(3000, -3000)];
+                v.push(g((limit + over).clamp(1, limit) as u32, late_cts));
+                v.push(g(3000, 0));
+                v
+            };
+            c
+        })
+        .boxed()
+}
+
+pub fn timeline_strategy(t: Tier) -> BoxedStrategy<ValidCase> {
+    prop_oneof![4 => plain_timeline_strategy(t), 1 => boundary_reorder_strategy()].boxed()
+}
+
+fn plain_timeline_strategy(_t: Tier) -> BoxedStrategy<ValidCase> {
     let edge = prop_oneof![
         3 => (u32::MAX - 3)..=u32::MAX,
         2 => (1u32 << 31) - 2..(1u32 << 31) + 3,
